@@ -1,3 +1,462 @@
 (* Proofs about the tokenizer model Lex/Tok.v *)
-From P2 Require Import Base.Prelude Lex.Token Lex.Tok.
+From P2 Require Import Base.Prelude Base.PreludeProofs Lex.Token Lex.Tok.
+From Coq Require Import Lia ZifyBool.
 Local Open Scope N_scope.
+
+(* ================================================================== 1. next on an empty cache *)
+
+Definition al (sk : bool) (c : N) : N := if sk then alias c else c.
+
+(* next, as a function of the unread runes and the line, when nothing is cached *)
+Definition nextf (cm sk : bool) (rs : list N) (ln : N) : N * list N * N :=
+  match rs with
+  | [] => (0, [], ln)
+  | c :: rest =>
+      if cm && sk && (c =? 47) then
+        match rest with
+        | [] => (al sk c, rest, ln)
+        | d :: rest' =>
+            if d =? 47 then
+              match skip_line rest' with
+              | None => (0, [], ln)
+              | Some (c2, r2) => (al sk c2, r2, ln)
+              end
+            else if d =? 42 then
+              match skip_block rest' ln with
+              | (None, l2) => (0, [], l2)
+              | (Some r2, l2) => (al sk 32, r2, l2)
+              end
+            else (al sk c, rest, ln)
+        end
+      else (al sk c, rest, ln)
+  end.
+
+Lemma next_fresh : forall cm sk rs l ln,
+  next cm sk (mkSt rs false l ln) =
+  let '(n, rs', ln') := nextf cm sk rs ln in (n, mkSt rs' false n ln').
+Proof.
+  intros cm sk rs l ln. unfold next, peek, peek_fresh, nextf, consume, al. cbn [s_isLast s_str s_line].
+  destruct rs as [|c rest]; [reflexivity|].
+  destruct (cm && sk && (c =? 47)) eqn:E; [|reflexivity].
+  destruct rest as [|d rest']; [reflexivity|].
+  destruct (d =? 47).
+  - destruct (skip_line rest') as [[c2 r2]|]; reflexivity.
+  - destruct (d =? 42); [|reflexivity].
+    destruct (skip_block rest' ln) as [[r2|] l2]; reflexivity.
+Qed.
+
+Lemma next_cached : forall cm sk rs l ln,
+  next cm sk (mkSt rs true l ln) = (l, mkSt rs false l ln).
+Proof. reflexivity. Qed.
+
+Lemma peek_unread : forall cm sk s, peek cm sk (unread s) = (s_last s, unread s).
+Proof. intros. destruct s; reflexivity. Qed.
+
+(* a state without cached rune behaves the same whatever t.last holds *)
+Lemma next_nolast : forall cm sk rs l ln, next cm sk (mkSt rs false l ln) = next cm sk (fresh rs ln).
+Proof. intros. unfold fresh. rewrite !next_fresh. reflexivity. Qed.
+
+(* looking ahead (next, then unread) is invisible to the next call of next *)
+Lemma next_unread_next : forall cm sk s, s_isLast s = false ->
+  next cm sk (unread (snd (next cm sk s))) = next cm sk s.
+Proof.
+  intros cm sk [rs il l ln] H. cbn in H. subst il. rewrite next_fresh.
+  destruct (nextf cm sk rs ln) as [[n rs'] ln']. reflexivity.
+Qed.
+
+(* ================================================================== 2. measure, fuel *)
+
+Definition msr (s : st) : nat :=
+  (length (s_str s) + (if s_isLast s && negb (N.eqb (s_last s) 0) then 1 else 0))%nat.
+
+Lemma skip_line_len : forall r c r', skip_line r = Some (c, r') -> (length r' < length r)%nat.
+Proof.
+  induction r as [|x r IH]; intros c r' H; cbn in H; [discriminate|].
+  destruct ((x =? 10) || (x =? 13)).
+  - inversion H; subst. cbn. lia.
+  - apply IH in H. cbn. lia.
+Qed.
+
+Lemma skip_block_len : forall r ln r' l2, skip_block r ln = (Some r', l2) -> (length r' < length r)%nat.
+Proof.
+  induction r as [|x r IH]; intros ln r' l2 H; cbn [skip_block] in H; [discriminate|].
+  destruct (x =? 42).
+  - destruct r as [|d r'']; [discriminate|].
+    destruct (d =? 47).
+    + destruct r'' as [|e r3]; [discriminate|]. inversion H; subst. cbn. lia.
+    + apply IH in H. cbn in *. lia.
+  - apply IH in H. cbn in *. lia.
+Qed.
+
+Lemma nextf_len : forall cm sk rs ln n rs' ln', nextf cm sk rs ln = (n, rs', ln') ->
+  (length rs' <= length rs)%nat /\ (n <> 0 -> (length rs' < length rs)%nat).
+Proof.
+  intros cm sk rs ln n rs' ln' H. unfold nextf in H.
+  destruct rs as [|c rest]; [inversion H; subst; split; [lia|congruence]|].
+  assert (Hplain : forall a, (a, rest, ln) = (n, rs', ln') ->
+            (length rs' <= length (c :: rest))%nat /\ (n <> 0 -> (length rs' < length (c :: rest))%nat)).
+  { intros a Ha. inversion Ha; subst. cbn. split; lia. }
+  destruct (cm && sk && (c =? 47)); [|eauto].
+  destruct rest as [|d rest']; [eauto|].
+  destruct (d =? 47).
+  - destruct (skip_line rest') as [[c2 r2]|] eqn:E.
+    + inversion H; subst. apply skip_line_len in E. cbn. split; lia.
+    + inversion H; subst. cbn. split; [lia|congruence].
+  - destruct (d =? 42); [|eauto].
+    destruct (skip_block rest' ln) as [[r2|] l2] eqn:E.
+    + inversion H; subst. apply skip_block_len in E. cbn. split; lia.
+    + inversion H; subst. cbn. split; [lia|congruence].
+Qed.
+
+Lemma msr_nocache : forall s, s_isLast s = false -> msr s = length (s_str s).
+Proof. intros s H. unfold msr. rewrite H. cbn. lia. Qed.
+
+Lemma next_msr : forall cm sk s n s', next cm sk s = (n, s') ->
+  s_isLast s' = false /\ s_last s' = n /\ (msr s' <= msr s)%nat /\ (n <> 0 -> (msr s' < msr s)%nat).
+Proof.
+  intros cm sk [rs il l ln] n s' H. destruct il.
+  - rewrite next_cached in H. inversion H; subst. unfold msr. cbn.
+    destruct (N.eqb_spec n 0); cbn; repeat split; try lia; congruence.
+  - rewrite next_fresh in H. destruct (nextf cm sk rs ln) as [[n0 rs'] ln'] eqn:E.
+    inversion H; subst. apply nextf_len in E. unfold msr. cbn. repeat split; try lia.
+Qed.
+
+Lemma msr_unread_next : forall cm sk s n s', next cm sk s = (n, s') -> (msr (unread s') <= msr s)%nat.
+Proof.
+  intros cm sk s n s' H. apply next_msr in H. destruct H as (Hil & Hl & Hle & Hlt).
+  unfold msr, unread in *. cbn. rewrite Hil in Hle. cbn in Hle. rewrite Hl.
+  destruct (N.eqb_spec n 0); cbn; [lia|]. specialize (Hlt n0). rewrite Hil in Hlt. cbn in Hlt. lia.
+Qed.
+
+(* ---- readSkip *)
+Lemma read_skip_fuel : forall f1 f2 cm sk valid prev s, (msr s < f1)%nat -> (msr s < f2)%nat ->
+  read_skip f1 cm sk valid prev s = read_skip f2 cm sk valid prev s.
+Proof.
+  induction f1 as [|f1 IH]; intros f2 cm sk valid prev s H1 H2; [lia|].
+  destruct f2 as [|f2]; [lia|]. cbn [read_skip].
+  destruct (next cm sk s) as [c s1] eqn:E. pose proof (next_msr _ _ _ _ _ E) as (_ & _ & Hle & Hlt).
+  destruct (negb (c =? 0) && valid prev c) eqn:V; [|reflexivity].
+  assert (c <> 0) by (destruct (N.eqb_spec c 0); [discriminate|assumption]).
+  rewrite (IH f2) by (specialize (Hlt H); lia). reflexivity.
+Qed.
+
+Lemma read_skip_some : forall f cm sk valid prev s, (msr s < f)%nat ->
+  exists w s', read_skip f cm sk valid prev s = Some (w, s') /\ (msr s' <= msr s)%nat.
+Proof.
+  induction f as [|f IH]; intros cm sk valid prev s H; [lia|]. cbn [read_skip].
+  destruct (next cm sk s) as [c s1] eqn:E. pose proof (next_msr _ _ _ _ _ E) as (_ & _ & Hle & Hlt).
+  destruct (negb (c =? 0) && valid prev c) eqn:V.
+  - assert (c <> 0) by (destruct (N.eqb_spec c 0); [discriminate|assumption]).
+    destruct (IH cm sk valid c s1) as (w & s' & Hr & Hm); [specialize (Hlt H0); lia|].
+    rewrite Hr. exists (c :: w), s'. split; [reflexivity|lia].
+  - exists [], (unread s1). split; [reflexivity|]. eapply msr_unread_next; eauto.
+Qed.
+
+Lemma read_skip_msr : forall f cm sk valid prev s w s',
+  read_skip f cm sk valid prev s = Some (w, s') -> (msr s' <= msr s)%nat.
+Proof.
+  induction f as [|f IH]; intros cm sk valid prev s w s' H; [discriminate|]. cbn [read_skip] in H.
+  destruct (next cm sk s) as [c s1] eqn:E. pose proof (next_msr _ _ _ _ _ E) as (_ & _ & Hle & _).
+  destruct (negb (c =? 0) && valid prev c).
+  - destruct (read_skip f cm sk valid c s1) as [[w2 s2]|] eqn:R; [|discriminate].
+    inversion H; subst. apply IH in R. lia.
+  - inversion H; subst. pose proof (msr_unread_next _ _ _ _ _ E). lia.
+Qed.
+
+(* if the first rune is accepted, the scan makes progress *)
+Lemma read_skip_progress : forall f cm sk valid prev s w s',
+  read_skip f cm sk valid prev s = Some (w, s') ->
+  fst (next cm sk s) <> 0 -> valid prev (fst (next cm sk s)) = true ->
+  (msr s' < msr s)%nat.
+Proof.
+  intros f cm sk valid prev s w s' H Hc Hv. destruct f as [|f]; [discriminate|]. cbn [read_skip] in H.
+  destruct (next cm sk s) as [c s1] eqn:E. cbn in Hc, Hv.
+  pose proof (next_msr _ _ _ _ _ E) as (_ & _ & Hle & Hlt). specialize (Hlt Hc).
+  rewrite Hv in H. destruct (N.eqb_spec c 0); [contradiction|]. cbn in H.
+  destruct (read_skip f cm sk valid c s1) as [[w2 s2]|] eqn:R; [|discriminate].
+  inversion H; subst. apply read_skip_msr in R. lia.
+Qed.
+
+(* ---- operator scanner *)
+Definition nonul (sufs : list str) : Prop := forall o, In o sufs -> ~ In 0 o.
+
+Lemma step_ops_nonul : forall sufs r, nonul sufs -> nonul (step_ops sufs r).
+Proof.
+  intros sufs r H o Ho. unfold step_ops in Ho. apply in_flat_map in Ho. destruct Ho as (x & Hx & Hin).
+  destruct x as [|c t]; [destruct Hin|]. destruct (c =? r); [|destruct Hin].
+  destruct Hin as [<-|[]]. intro H0. apply (H _ Hx). right. exact H0.
+Qed.
+
+Lemma step_ops_nul : forall sufs, nonul sufs -> step_ops sufs 0 = [].
+Proof.
+  intros sufs H. destruct (step_ops sufs 0) as [|x l] eqn:E; [reflexivity|].
+  assert (Hin : In x (step_ops sufs 0)) by (rewrite E; left; reflexivity).
+  unfold step_ops in Hin. apply in_flat_map in Hin. destruct Hin as (y & Hy & Hin).
+  destruct y as [|c t]; [destruct Hin|]. destruct (N.eqb_spec c 0); [|destruct Hin].
+  subst. exfalso. apply (H _ Hy). left. reflexivity.
+Qed.
+
+Lemma op_loop_fuel : forall f1 f2 cm sufs s, nonul sufs -> (msr s < f1)%nat -> (msr s < f2)%nat ->
+  op_loop f1 cm sufs s = op_loop f2 cm sufs s.
+Proof.
+  induction f1 as [|f1 IH]; intros f2 cm sufs s Hn H1 H2; [lia|].
+  destruct f2 as [|f2]; [lia|]. cbn [op_loop].
+  destruct (next cm true s) as [r s1] eqn:E. pose proof (next_msr _ _ _ _ _ E) as (_ & _ & Hle & Hlt).
+  destruct (step_ops sufs r) as [|x l] eqn:S; [reflexivity|].
+  assert (r <> 0) by (intro; subst; rewrite step_ops_nul in S by assumption; discriminate).
+  rewrite (IH f2); [reflexivity| |specialize (Hlt H); lia|specialize (Hlt H); lia].
+  rewrite <- S. apply step_ops_nonul. assumption.
+Qed.
+
+Lemma op_loop_some : forall f cm sufs s, nonul sufs -> (msr s < f)%nat ->
+  exists w ok s', op_loop f cm sufs s = Some (w, ok, s').
+Proof.
+  induction f as [|f IH]; intros cm sufs s Hn H; [lia|]. cbn [op_loop].
+  destruct (next cm true s) as [r s1] eqn:E. pose proof (next_msr _ _ _ _ _ E) as (_ & _ & Hle & Hlt).
+  destruct (step_ops sufs r) as [|x l] eqn:S; [eauto|].
+  assert (r <> 0) by (intro; subst; rewrite step_ops_nul in S by assumption; discriminate).
+  destruct (IH cm (x :: l) s1) as (w & ok & s' & Hr); [rewrite <- S; apply step_ops_nonul; assumption|specialize (Hlt H0); lia|].
+  rewrite Hr. eauto.
+Qed.
+
+Lemma op_loop_msr : forall f cm sufs s w ok s', op_loop f cm sufs s = Some (w, ok, s') -> (msr s' <= msr s)%nat.
+Proof.
+  induction f as [|f IH]; intros cm sufs s w ok s' H; [discriminate|]. cbn [op_loop] in H.
+  destruct (next cm true s) as [r s1] eqn:E. pose proof (next_msr _ _ _ _ _ E) as (_ & _ & Hle & _).
+  destruct (step_ops sufs r) as [|x l] eqn:S.
+  - inversion H; subst. eapply msr_unread_next; eauto.
+  - destruct (op_loop f cm (x :: l) s1) as [[[w2 ok2] s2]|] eqn:R; [|discriminate].
+    inversion H; subst. apply IH in R. lia.
+Qed.
+
+Lemma parse_operator_fuel : forall f1 f2 cm ops s, nonul ops -> (msr s < f1)%nat -> (msr s < f2)%nat ->
+  parse_operator f1 cm ops s = parse_operator f2 cm ops s.
+Proof.
+  intros f1 f2 cm ops s Hn H1 H2. unfold parse_operator.
+  destruct (next cm true s) as [r s1] eqn:E. pose proof (next_msr _ _ _ _ _ E) as (_ & _ & Hle & _).
+  destruct (step_ops ops r) as [|x l] eqn:S; [reflexivity|].
+  rewrite (op_loop_fuel f1 f2); [reflexivity| |lia|lia]. rewrite <- S. apply step_ops_nonul. assumption.
+Qed.
+
+Lemma parse_operator_some : forall f cm ops s, nonul ops -> (msr s < f)%nat ->
+  exists w ok s', parse_operator f cm ops s = Some (w, ok, s').
+Proof.
+  intros f cm ops s Hn H. unfold parse_operator.
+  destruct (next cm true s) as [r s1] eqn:E. pose proof (next_msr _ _ _ _ _ E) as (_ & _ & Hle & _).
+  destruct (step_ops ops r) as [|x l] eqn:S; [eauto|].
+  destruct (op_loop_some f cm (x :: l) s1) as (w & ok & s' & Hr); [rewrite <- S; apply step_ops_nonul; assumption|lia|].
+  rewrite Hr. eauto.
+Qed.
+
+Lemma parse_operator_msr : forall f cm ops s w ok s', parse_operator f cm ops s = Some (w, ok, s') ->
+  fst (next cm true s) <> 0 -> (msr s' < msr s)%nat.
+Proof.
+  intros f cm ops s w ok s' H Hc. unfold parse_operator in H.
+  destruct (next cm true s) as [r s1] eqn:E. pose proof (next_msr _ _ _ _ _ E) as (_ & _ & Hle & Hlt).
+  cbn in Hc. specialize (Hlt Hc).
+  destruct (step_ops ops r) as [|x l] eqn:S.
+  - inversion H; subst. lia.
+  - destruct (op_loop f cm (x :: l) s1) as [[[w2 ok2] s2]|] eqn:R; [|discriminate].
+    inversion H; subst. apply op_loop_msr in R. lia.
+Qed.
+
+(* ---- readStr *)
+Lemma read_str_fuel : forall f1 f2 cm s, (msr s < f1)%nat -> (msr s < f2)%nat ->
+  read_str f1 cm s = read_str f2 cm s.
+Proof.
+  induction f1 as [|f1 IH]; intros f2 cm s H1 H2; [lia|].
+  destruct f2 as [|f2]; [lia|]. cbn [read_str].
+  destruct (next cm false s) as [c s1] eqn:E. pose proof (next_msr _ _ _ _ _ E) as (_ & _ & Hle & Hlt).
+  destruct (c =? 34); [reflexivity|].
+  destruct (N.eqb_spec c 0) as [|Hc]; [subst; reflexivity|]. specialize (Hlt Hc). cbn [orb].
+  destruct ((c =? 10) || (c =? 13)); [reflexivity|].
+  destruct (c =? 92).
+  - destruct (next cm false s1) as [i s2] eqn:E2. pose proof (next_msr _ _ _ _ _ E2) as (_ & _ & Hle2 & _).
+    rewrite (IH f2) by lia. reflexivity.
+  - rewrite (IH f2) by lia. reflexivity.
+Qed.
+
+Lemma read_str_some : forall f cm s, (msr s < f)%nat ->
+  exists r s', read_str f cm s = Some (r, s').
+Proof.
+  induction f as [|f IH]; intros cm s H; [lia|]. cbn [read_str].
+  destruct (next cm false s) as [c s1] eqn:E. pose proof (next_msr _ _ _ _ _ E) as (_ & _ & Hle & Hlt).
+  destruct (c =? 34); [eauto|].
+  destruct (N.eqb_spec c 0) as [|Hc]; [subst; cbn; eauto|]. specialize (Hlt Hc). cbn [orb].
+  destruct ((c =? 10) || (c =? 13)); [eauto|].
+  destruct (c =? 92).
+  - destruct (next cm false s1) as [i s2] eqn:E2. pose proof (next_msr _ _ _ _ _ E2) as (_ & _ & Hle2 & _).
+    destruct (IH cm s2) as (r & s' & Hr); [lia|]. rewrite Hr. destruct r; eauto.
+  - destruct (IH cm s1) as (r & s' & Hr); [lia|]. rewrite Hr. destruct r; eauto.
+Qed.
+
+Lemma read_str_msr : forall f cm s r s', read_str f cm s = Some (r, s') -> (msr s' <= msr s)%nat.
+Proof.
+  induction f as [|f IH]; intros cm s r s' H; [discriminate|]. cbn [read_str] in H.
+  destruct (next cm false s) as [c s1] eqn:E. pose proof (next_msr _ _ _ _ _ E) as (_ & _ & Hle & _).
+  destruct (c =? 34); [inversion H; subst; lia|].
+  destruct ((c =? 0) || (c =? 10) || (c =? 13)); [inversion H; subst; lia|].
+  destruct (c =? 92).
+  - destruct (next cm false s1) as [i s2] eqn:E2. pose proof (next_msr _ _ _ _ _ E2) as (_ & _ & Hle2 & _).
+    destruct (read_str f cm s2) as [[[w|] s3]|] eqn:R; [| |discriminate];
+      inversion H; subst; apply IH in R; lia.
+  - destruct (read_str f cm s1) as [[[w|] s3]|] eqn:R; [| |discriminate];
+      inversion H; subst; apply IH in R; lia.
+Qed.
+
+(* ================================================================== 3. one iteration of run *)
+Definition ops_ok (cfg : tcfg) : Prop := nonul (c_ops cfg).
+
+Lemma next_unread : forall cm sk s, s_isLast s = false -> next cm sk (unread s) = (s_last s, s).
+Proof. intros cm sk [rs il l ln] H. cbn in H. subst. reflexivity. Qed.
+
+Lemma step_word_fuel : forall f1 f2 cfg lt ln s1, ops_ok cfg ->
+  (msr (unread s1) < f1)%nat -> (msr (unread s1) < f2)%nat ->
+  step_word f1 cfg lt ln s1 = step_word f2 cfg lt ln s1.
+Proof.
+  intros f1 f2 cfg lt ln s1 Ho H1 H2. unfold step_word. cbv zeta. rewrite peek_unread.
+  rewrite (read_skip_fuel f1 f2 _ _ (number_valid cfg)) by assumption.
+  rewrite (read_skip_fuel f1 f2 _ _ (ident_valid cfg)) by assumption.
+  rewrite (parse_operator_fuel f1 f2) by assumption. reflexivity.
+Qed.
+
+Lemma step_string_fuel : forall f1 f2 cfg ln s1, (msr s1 < f1)%nat -> (msr s1 < f2)%nat ->
+  step_string f1 cfg ln s1 = step_string f2 cfg ln s1.
+Proof. intros. unfold step_string. rewrite (read_str_fuel f1 f2) by assumption. reflexivity. Qed.
+
+Lemma step_quoted_fuel : forall f1 f2 cfg lt ln s1, (msr s1 < f1)%nat -> (msr s1 < f2)%nat ->
+  step_quoted f1 cfg lt ln s1 = step_quoted f2 cfg lt ln s1.
+Proof. intros. unfold step_quoted. cbv zeta. rewrite (read_skip_fuel f1 f2) by assumption. reflexivity. Qed.
+
+Lemma step_fuel : forall f1 f2 cfg lt lb s, ops_ok cfg -> (msr s < f1)%nat -> (msr s < f2)%nat ->
+  step f1 cfg lt lb s = step f2 cfg lt lb s.
+Proof.
+  intros f1 f2 cfg lt lb s Ho H1 H2. unfold step. cbv zeta.
+  destruct (next (c_comments cfg) true s) as [n s1] eqn:E.
+  pose proof (next_msr _ _ _ _ _ E) as (_ & _ & Hle & _). pose proof (msr_unread_next _ _ _ _ _ E) as Hu.
+  rewrite (step_string_fuel f1 f2) by lia. rewrite (step_quoted_fuel f1 f2) by lia.
+  rewrite (step_word_fuel f1 f2) by (assumption || lia). reflexivity.
+Qed.
+
+Lemma step_word_go : forall f cfg lt ln s1, ops_ok cfg -> (msr (unread s1) < f)%nat ->
+  s_isLast s1 = false -> s_last s1 <> 0 -> superscript (s_last s1) = None ->
+  exists toks lt' s', step_word f cfg lt ln s1 = StGo toks lt' false s' /\ (msr s' < msr (unread s1))%nat.
+Proof.
+  intros f cfg lt ln s1 Ho Hf Hil Hn Hsup. unfold step_word. cbv zeta. rewrite peek_unread.
+  set (n := s_last s1) in *. set (cm := c_comments cfg).
+  assert (Hnx : next cm true (unread s1) = (n, s1)) by (apply next_unread; assumption).
+  assert (Hsupb : is_sup n = false) by (unfold is_sup; rewrite Hsup; reflexivity).
+  destruct (number_start cfg n) eqn:Hnum.
+  - destruct (read_skip_some f cm true (number_valid cfg) 0 (unread s1) Hf) as (w & s4 & Hr & _).
+    rewrite Hr. do 3 eexists. split; [reflexivity|].
+    eapply read_skip_progress; [exact Hr| |]; rewrite Hnx; cbn [fst]; [assumption|].
+    unfold number_valid. unfold number_start in Hnum. rewrite Hnum, Hsupb. reflexivity.
+  - destruct (ident_start cfg n) eqn:Hid.
+    + destruct (read_skip_some f cm true (ident_valid cfg) 0 (unread s1) Hf) as (w & s4 & Hr & _).
+      rewrite Hr.
+      assert (Hp : (msr s4 < msr (unread s1))%nat).
+      { eapply read_skip_progress; [exact Hr| |]; rewrite Hnx; cbn [fst]; [assumption|].
+        unfold ident_valid. unfold ident_start in Hid.
+        destruct (c_letter cfg n); [reflexivity|]. cbn in Hid. rewrite Hid. apply orb_true_r. }
+      destruct (assoc w (c_textops cfg)); [eauto|].
+      destruct (mem_str w (c_keywords cfg)); eauto.
+    + destruct (parse_operator_some f cm (c_ops cfg) (unread s1) Ho Hf) as (w & ok & s4 & Hr).
+      rewrite Hr. do 3 eexists. split; [reflexivity|].
+      eapply parse_operator_msr; [exact Hr|]. rewrite Hnx. assumption.
+Qed.
+
+Lemma step_string_go : forall f cfg ln s1, (msr s1 < f)%nat ->
+  exists toks s', step_string f cfg ln s1 = StGo toks tInvalid false s' /\ (msr s' <= msr s1)%nat.
+Proof.
+  intros f cfg ln s1 Hf. unfold step_string.
+  destruct (read_str_some f (c_comments cfg) s1 Hf) as (r & s' & Hr). rewrite Hr.
+  apply read_str_msr in Hr. destruct r; eauto.
+Qed.
+
+Lemma step_quoted_go : forall f cfg lt ln s1, (msr s1 < f)%nat ->
+  exists toks lt' s', step_quoted f cfg lt ln s1 = StGo toks lt' false s' /\ (msr s' <= msr s1)%nat.
+Proof.
+  intros f cfg lt ln s1 Hf. unfold step_quoted. cbv zeta.
+  destruct (read_skip_some f (c_comments cfg) false (fun _ c => negb (c =? 39)) 0 s1 Hf) as (w & s2 & Hr & Hm).
+  rewrite Hr. destruct (next (c_comments cfg) false s2) as [x s3] eqn:E.
+  pose proof (next_msr _ _ _ _ _ E) as (_ & _ & Hle & _). do 3 eexists. split; [reflexivity|lia].
+Qed.
+
+Lemma step_go : forall f cfg lt lb s, ops_ok cfg -> (msr s < f)%nat ->
+  step f cfg lt lb s = StEof \/
+  exists toks lt' lb' s', step f cfg lt lb s = StGo toks lt' lb' s' /\ (msr s' < msr s)%nat.
+Proof.
+  intros f cfg lt lb s Ho Hf. unfold step. cbv zeta.
+  destruct (next (c_comments cfg) true s) as [n s1] eqn:E.
+  pose proof (next_msr _ _ _ _ _ E) as (Hil & Hl & Hle & Hlt). pose proof (msr_unread_next _ _ _ _ _ E) as Hu.
+  destruct (N.eqb_spec n 10) as [->|_].
+  { right. do 4 eexists. split; [reflexivity|]. assert (H10 : 10 <> 0) by discriminate. specialize (Hlt H10).
+    unfold msr in *. cbn [s_str s_isLast s_last]. lia. }
+  destruct ((n =? 32) || (n =? 13) || (n =? 9)) eqn:Hb.
+  { right. do 4 eexists. split; [reflexivity|]. apply Hlt. intro Hz; rewrite Hz in Hb; vm_compute in Hb; discriminate Hb. }
+  destruct (N.eqb_spec n 0) as [|Hn0]; [left; reflexivity|]. specialize (Hlt Hn0). right.
+  destruct (n =? 40); [do 4 eexists; split; [reflexivity|lia]|].
+  destruct (n =? 41); [do 4 eexists; split; [reflexivity|lia]|].
+  destruct (single_tok n); [do 4 eexists; split; [reflexivity|lia]|].
+  destruct (n =? 34).
+  { destruct (step_string_go f cfg (s_line s1) s1) as (toks & s' & Hr & Hm); [lia|]. rewrite Hr. do 4 eexists. split; [reflexivity|lia]. }
+  destruct (n =? 39).
+  { destruct (step_quoted_go f cfg lt (s_line s1) s1) as (toks & lt' & s' & Hr & Hm); [lia|]. rewrite Hr. do 4 eexists. split; [reflexivity|lia]. }
+  destruct (superscript n) eqn:Hsup; [do 4 eexists; split; [reflexivity|lia]|].
+  destruct (step_word_go f cfg lt (s_line s1) s1) as (toks & lt' & s' & Hr & Hm); try assumption; try lia; try congruence.
+  rewrite Hr. do 4 eexists. split; [reflexivity|lia].
+Qed.
+
+(* ================================================================== 4. run: fuel, totality *)
+Lemma run_fuel : forall f1 f2 cfg lt lb s, ops_ok cfg -> (msr s < f1)%nat -> (msr s < f2)%nat ->
+  run f1 cfg lt lb s = run f2 cfg lt lb s.
+Proof.
+  induction f1 as [|f1 IH]; intros f2 cfg lt lb s Ho H1 H2; [lia|].
+  destruct f2 as [|f2]; [lia|]. cbn [run]. rewrite (step_fuel (S f1) (S f2)) by assumption.
+  destruct (step_go (S f2) cfg lt lb s Ho H2) as [He|(toks & lt' & lb' & s' & Hs & Hm)]; rewrite ?He, ?Hs; [reflexivity|].
+  rewrite (IH f2) by (assumption || lia). reflexivity.
+Qed.
+
+Lemma run_some : forall f cfg lt lb s, ops_ok cfg -> (msr s < f)%nat -> exists ts, run f cfg lt lb s = Some ts.
+Proof.
+  induction f as [|f IH]; intros cfg lt lb s Ho H; [lia|]. cbn [run].
+  destruct (step_go (S f) cfg lt lb s Ho H) as [He|(toks & lt' & lb' & s' & Hs & Hm)]; rewrite ?He, ?Hs; [eauto|].
+  destruct (IH cfg lt' lb' s' Ho) as (ts & Hr); [lia|]. rewrite Hr. eauto.
+Qed.
+
+(* C04, tokenizer half: scanning is total; the fuel tokenize uses (length + 2) always suffices *)
+Theorem tokenize_total_lemma : forall cfg rs, ops_ok cfg ->
+  exists ts, tokenize_fuel (length rs + 2) cfg rs = Some ts.
+Proof.
+  intros cfg rs Ho. unfold tokenize_fuel. apply run_some; [assumption|]. unfold msr, fresh. cbn. lia.
+Qed.
+
+(* fuel-free token list of a state *)
+Definition lex (cfg : tcfg) (lt : ttype) (lb : bool) (s : st) : list token :=
+  match run (S (msr s)) cfg lt lb s with Some l => l | None => [] end.
+
+Lemma tokenize_lex : forall cfg rs, ops_ok cfg -> tokenize cfg rs = lex cfg tInvalid false (fresh rs 1).
+Proof.
+  intros cfg rs Ho. unfold tokenize, tokenize_fuel, lex.
+  rewrite (run_fuel (length rs + 2) (S (msr (fresh rs 1)))); [reflexivity|assumption| |]; unfold msr, fresh; cbn; lia.
+Qed.
+
+Lemma lex_unfold : forall cfg lt lb s, ops_ok cfg ->
+  lex cfg lt lb s = match step (S (msr s)) cfg lt lb s with
+                    | StGo toks lt' lb' s' => toks ++ lex cfg lt' lb' s'
+                    | _ => []
+                    end.
+Proof.
+  intros cfg lt lb s Ho. unfold lex at 1. cbn [run].
+  destruct (step_go (S (msr s)) cfg lt lb s Ho) as [He|(toks & lt' & lb' & s' & Hs & Hm)]; [lia|rewrite He; reflexivity|].
+  rewrite Hs. unfold lex. rewrite (run_fuel (msr s) (S (msr s'))) by (assumption || lia).
+  destruct (run_some (S (msr s')) cfg lt' lb' s' Ho) as (ts & Hr); [lia|]. rewrite Hr. reflexivity.
+Qed.
+
+(* the same with any sufficient fuel *)
+Lemma lex_step : forall f cfg lt lb s, ops_ok cfg -> (msr s < f)%nat ->
+  lex cfg lt lb s = match step f cfg lt lb s with
+                    | StGo toks lt' lb' s' => toks ++ lex cfg lt' lb' s'
+                    | _ => []
+                    end.
+Proof. intros. rewrite lex_unfold by assumption. rewrite (step_fuel (S (msr s)) f) by (assumption || lia). reflexivity. Qed.
